@@ -78,7 +78,8 @@ def run(chk, replay=None):
             accepted.append(g)
         elif kind == "rej":
             continue
-        elif getattr(g, "is_example", False) and "param" in x.lower():
+        elif "param::" in g.text and "is missing an argument" in x:
+            # a template compiled without arguments: the documented Err of instantiate (C12), not a failure of code generation
             chk.count("compile.example_needs_args")
         else:
             chk.violation({"class": "accepted-but-not-compiled", "what": "%s || %s" % (x[:160], g.text[:300])},
